@@ -383,9 +383,17 @@ def EntryArgs.flags (a : EntryArgs) (inside : Bool) : EntryOptions :=
   ⟨!a.exclusions.isEmpty, tupleGiven a.regexExclusions, tupleGiven a.externalExclusions,
    tupleGiven a.regexExternalExclusions, a.excludeExternal, inside⟩
 
-/-- `if exclusions: regex_exclusions = tuple(convert_partial_match_to_regex(p) …)`; the value then handed to
-    `generate_graph` as `exclusions`. `none`: it is still `None` (empty `exclusions`, no `regex_exclusions`). -/
+/-- `if exclusions: regex_exclusions = tuple(convert_partial_match_to_regex(p) …) elif regex_exclusions is None:
+    regex_exclusions = ()`; the value then handed to `generate_graph` as `exclusions`. Since the repair c0bb7ac (F-C08a)
+    it is never `None`: an empty `exclusions` tuple without `regex_exclusions` means that nothing is excluded.
+    (Before the repair the last case was `none`, and `FileFilter(Config(None))` raised a `TypeError` — see
+    `EntryArgs.filePatternsBeforeRepair` and `Pta.C08.no_patterns_*`.) -/
 def EntryArgs.filePatterns (a : EntryArgs) : Option Patterns :=
+  if !a.exclusions.isEmpty then some (.globs a.exclusions)
+  else some (.regexes (a.regexExclusions.getD []))
+
+/-- the same computation before the repair c0bb7ac -/
+def EntryArgs.filePatternsBeforeRepair (a : EntryArgs) : Option Patterns :=
   if !a.exclusions.isEmpty then some (.globs a.exclusions)
   else a.regexExclusions.map .regexes
 
@@ -401,7 +409,9 @@ def EntryArgs.scanOptions (a : EntryArgs) : Option ScanOptions :=
       externalExclusions := a.externalPatterns }
 
 /-- errors of the entry points: the kinds the harness distinguishes, and the `TypeError` of `FileFilter(Config(None))`
-    (`for pattern in None`) that `exclusions=()` without `regex_exclusions` runs into at the start of `generate_graph` -/
+    (`for pattern in None`) that `exclusions=()` without `regex_exclusions` ran into at the start of `generate_graph`
+    before the repair c0bb7ac; since then `scanOptions` is always `some _` and the branch is dead
+    (`Pta.C08.no_type_error`) -/
 inductive EntryErr
   | kind (k : ErrKind)
   | typeError
